@@ -10,12 +10,15 @@ from ebpfcat.ebpfcat import ParallelEtherCat, ProcessSyncGroup  # noqa: E402
 
 PROPERTY = "C29"
 LEVEL = "exploration"
-RULE = ("device classes with 1-6 DeviceVars of every format (generated "
+RULE = ("device classes with 1-6 DeviceVars of every format incl. x with "
+        "either sign (generated "
         "deterministically in an importable module so that a spawned child "
         "rebuilds them), 1-4 device instances per real ProcessSyncGroup; the "
         "parent writes distinct random values, a real multiprocessing "
         "'spawn' child (given the pickled sync group, as the library does) "
-        "reads them and writes others, the parent reads back; two rounds. "
+        "reads them and writes others, the parent reads back; two rounds; "
+        "then the same device objects join a second group with new devices "
+        "in another order and the exchange is repeated. "
         "Oracle: every value read equals the last value written by the other "
         "side; the byte ranges of all variables of all devices in the shared "
         "array are pairwise disjoint. a case = one configuration; "
@@ -33,11 +36,26 @@ def plan(tier, seed):
 
 
 def rand_value(rng, fmt):
+    if fmt == "x":
+        # a decimal with five fractional digits, either sign
+        return rng.choice([1, -1]) * rng.randint(0, 10 ** 10) / 100000
     size = struct.calcsize(fmt)
     v = rng.getrandbits(8 * size)
     if fmt.islower() and v >> (8 * size - 1):
         v -= 1 << (8 * size)
     return v
+
+
+def same(fmt, a, b):
+    if fmt == "x":
+        return round(a * 100000) == round(b * 100000)
+    return a == b
+
+
+def rows_equal(devs, names, got, want):
+    return all(same(type(d).__dict__[n].fmt, g, w)
+               for d, ns, grow, wrow in zip(devs, names, got, want)
+               for n, g, w in zip(ns, grow, wrow))
 
 
 def check_case(rng, res):
@@ -47,12 +65,28 @@ def check_case(rng, res):
     nvars = sum(len(f) for f in desc["formats"])
     res.case([desc, rng.getrandbits(30)], nontrivial=nvars >= 2)
     devs = [classes[k]() for k in ks]
+    if not exchange(rng, res, devs, desc):
+        return
+    # the same device objects join a second group (a restarted or
+    # regrouped controller) together with new ones, in another order
+    k2 = [rng.randrange(len(classes)) for _ in range(rng.randint(1, 2))]
+    devs2 = devs + [classes[k]() for k in k2]
+    rng.shuffle(devs2)
+    if rng.random() < 0.5 and len(devs2) > 2:
+        devs2.pop(rng.randrange(len(devs2)))
+    res.count("second_groups")
+    exchange(rng, res, devs2, dict(
+        desc, second_group=[type(d).__name__ + ("(reused)" if d in devs
+                                                else "") for d in devs2]))
+
+
+def exchange(rng, res, devs, desc):
     try:
         sg = ProcessSyncGroup(ParallelEtherCat("vf"), devs)
     except Exception as ex:
         res.violation("unexplained:construct",
                       f"{type(ex).__name__}: {ex}", case=desc)
-        return
+        return False
     names = [sorted(k for k in type(d).__dict__ if k.startswith("v"))
              for d in devs]
     # layout
@@ -62,19 +96,20 @@ def check_case(rng, res):
             for n in ns:
                 fmt = type(d).__dict__[n].fmt
                 pos = d.__dict__[n]
-                ranges.append((pos, pos + struct.calcsize(fmt), id(d), n))
+                ranges.append((pos, pos + (8 if fmt == 'x' else
+                                           struct.calcsize(fmt)), id(d), n))
     except KeyError as ex:
         res.violation("device-variables-not-in-the-process-group-map",
                       f"DeviceVar {ex} of a device in a ProcessSyncGroup has "
                       "no slot in the group's shared array (DeviceVar is "
                       "bound to FastSyncGroup.properties, which a "
                       "ProcessSyncGroup does not collect)", case=desc)
-        return
+        return False
     ranges.sort()
     for a, b in zip(ranges, ranges[1:]):
         if b[0] < a[1]:
             res.violation("unexplained:ranges-overlap", f"{a} {b}", case=desc)
-            return
+            return False
     res.count("variables", len(ranges))
     parent, child = sg.ctx.Pipe()
     p = sg.ctx.Process(target=procchild.c29_child, args=(sg, child))
@@ -89,38 +124,39 @@ def check_case(rng, res):
             parent.send(("read",))
             if not parent.poll(60):
                 res.inconc("child did not answer")
-                return
+                return False
             msg = parent.recv()
             if msg[0] == "error":
                 res.violation("unexplained:child-error", msg[1], case=desc,
                               witness=msg[2])
-                return
+                return False
             res.count("child_reads", sum(len(r) for r in vals))
-            if msg[1] != vals:
+            if not rows_equal(devs, names, msg[1], vals):
                 res.violation("unexplained:child-sees-other-values",
                               f"parent wrote {vals}, child read {msg[1]}",
                               case=desc)
-                return
+                return False
             back = [[rand_value(rng, type(d).__dict__[n].fmt) for n in ns]
                     for d, ns in zip(devs, names)]
             parent.send(("write", back))
             if not parent.poll(60):
                 res.inconc("child did not answer")
-                return
+                return False
             msg = parent.recv()
             if msg[0] == "error":
                 res.violation("unexplained:child-error", msg[1], case=desc,
                               witness=msg[2])
-                return
+                return False
             got = [[getattr(d, n) for n in ns] for d, ns in zip(devs, names)]
             res.count("parent_reads", sum(len(r) for r in back))
-            if got != back:
+            if not rows_equal(devs, names, got, back):
                 res.violation("unexplained:parent-sees-other-values",
                               f"child wrote {back}, parent read {got}",
                               case=desc)
-                return
+                return False
         if len(res.samples) < 2:
             res.sample(dict(desc, ranges=[(a, b, n) for a, b, _, n in ranges]))
+        return True
     finally:
         try:
             parent.send(("quit",))
